@@ -29,7 +29,7 @@ func init() { fw.Register(c12{}) }
 func (c12) ID() string    { return "C12" }
 func (c12) Level() string { return "exploration" }
 func (c12) Rule() string {
-	return "unit = one run (child process, race detector on): G in {2,8} request goroutines call ShardManager.DoWithShard on 1..3 shards of 1..2 collections with callbacks that do Info / insert / search of random duration, 1..2 deleter goroutines call DeleteCollectionShards, and the idle timer fires constantly (timeout 0 s, or 1 s with pauses so that it fires during requests and deletions), with shard backups enabled or disabled. Event log {enter/exit(shard pointer, directory), delete start/end}; refuted by: a storage call inside a callback failing or panicking because the shard was closed, two different shard objects for one directory with overlapping use, the shard file missing at callback exit (unless that callback's collection deletion overlapped... never while in use), a stall with a goroutine-dump deadlock witness, or a DoWithShard on every shard failing after the storm. Non-trivial = an unload and a deletion overlapped a request in that run; distinct by (seed, configuration)."
+	return "unit = one run (child process, race detector on): G in {2,8} request goroutines call ShardManager.DoWithShard on 1..3 shards of 1..2 collections with callbacks that do Info / insert / search of random duration, 1..2 deleter goroutines call DeleteCollectionShards, and the idle timer fires constantly (timeout 0 s, or 1 s with pauses so that it fires during requests and deletions), with shard backups enabled or disabled; with backups enabled a shard directory is made immutable around an idle unload at the end, so that the backup cannot be written. Event log {enter/exit(shard pointer, directory), delete start/end}; refuted by: a storage call inside a callback failing or panicking because the shard was closed, two different shard objects for one directory with overlapping use, the shard file missing at callback exit (unless that callback's collection deletion overlapped... never while in use), a stall with a goroutine-dump deadlock witness, or a DoWithShard on every shard failing after the storm. Non-trivial = an unload and a deletion overlapped a request in that run; distinct by (seed, configuration)."
 }
 func (c12) Assumptions() []string {
 	return []string{"'every call eventually returns' is restated as bounded progress: no stall with a deadlock witness, and fresh requests succeed after the storm; a watchdog expiry without witness is inconclusive", "a request may receive a clean error (shard already closed) - that is allowed by the statement"}
@@ -233,6 +233,33 @@ loop:
 		}
 	}
 	close(stop)
+	// a backup that fails: with backups enabled the idle timer backs a shard up before it closes it.
+	// The shard directory is made immutable for that moment, so that the backup file cannot be created
+	// (as on a full disk or without permission). The shard must still be closed and be loadable again -
+	// that is what the loop below demands of every shard.
+	if c.Bool("backups", false) {
+		for _, col := range cols {
+			sid := col.ShardIds[0]
+			dir := filepath.Join(root, "userCollections", col.UserId, col.Id, sid)
+			g := gen.New(c.Seed^0xbac, schema)
+			err := sm.DoWithShard(col, sid, func(s *shard.Shard) error {
+				return s.InsertPoints([]models.Point{{Id: g.NewId(), Data: model.Encode(g.Doc())}})
+			})
+			if err != nil {
+				continue
+			}
+			if err := fw.SetImmutable(dir, true); err != nil {
+				res.Stat("backup_failure_injection_unavailable", 1)
+				break
+			}
+			// the last backup is at most a second old, the next one is due a second later
+			time.Sleep(time.Duration(c.Int("timeout", 0))*time.Second + 2500*time.Millisecond)
+			sm.DoWithShard(col, sid, func(s *shard.Shard) error { _, err := s.Info(); return err })
+			time.Sleep(time.Duration(c.Int("timeout", 0))*time.Second + 1500*time.Millisecond)
+			fw.SetImmutable(dir, false)
+			res.Stat("idle_unloads_with_an_impossible_backup", 1)
+		}
+	}
 	// after the storm: every shard can be loaded and used again
 	for _, col := range cols {
 		for _, sid := range col.ShardIds {
